@@ -378,6 +378,9 @@ class TaskDispatcher(object):
         self.ready = deque()  # of ExecNode
         # nodes sent to runner that were not marked as processed yet
         self.dispatched = set()  # of ExecNode
+        # task-creators already evaluated by a DelayedLoader (every name in
+        # `creates` has its own copy of the loader, and of its `created` flag)
+        self.evaluated_creators = []
 
         self.generator = self._dispatcher_generator(selected_tasks)
 
@@ -483,7 +486,9 @@ class TaskDispatcher(object):
             ref = this_task.loader.creator
             to_load = this_task.loader.basename or this_task.name
             this_loader = self.tasks[to_load].loader
-            if this_loader and not this_loader.created:
+            if (this_loader and not this_loader.created
+                    and ref not in self.evaluated_creators):
+                self.evaluated_creators.append(ref)
                 task_gen = ref(**this_loader.kwargs) if this_loader.kwargs else ref()
                 new_tasks = generate_tasks(to_load, task_gen, ref.__doc__)
                 TaskControl.set_implicit_deps(self.targets, new_tasks)
